@@ -145,6 +145,18 @@ CHECKS = {
             "yielded as clean. Sampled, with floors on every class.",
             "Trusts vf/xref.py for the consumed-bit count; only the 'Number of bits parsed' warning is interpreted.",
             "DESIGN.md 3/C14"),
+    "C07": ("exploration",
+            "Hypothesis-drawn template documents (offset x character set x delimiter x length form) with content "
+            "synthesised in the character set, decoded by the library and by the independent reference decoder; a "
+            "sentinel field after the string/binary proves the cursor position",
+            "All ten character sets, three delimiters, three length forms (raw / calibrated references, with and "
+            "without linear adjustment, multi-entry lookups), bit offsets 0..7 and non-byte lengths are combined; "
+            "content includes terminators straddling character boundaries, inconsistent size tags and random bytes. "
+            "Values, raw buffers, padding side and the cursor after the field are compared with the reference. "
+            "Sampled; the evidence lists the count per (character set, delimiter, length form) cell.",
+            "Python's codec tables are trusted, the slicing is not; sub-domains the property leaves open are counted "
+            "and not asserted.",
+            "DESIGN.md 3/C07"),
 }
 
 PENDING_REASON = "check not built yet in this round (planned, see DESIGN.md section 3); nothing is claimed for it"
